@@ -8,7 +8,7 @@ uses labtech's own dependency search.
 import random
 
 SHAPES = ('chain', 'diamond', 'fanin', 'fanout', 'wide', 'layered', 'reqsub', 'mix')
-DEFAULT_TYPES = (('NA', 4), ('N__U_', 1), ('NR', 1), ('NB', 2), ('NC', 2), ('ND', 1), ('NN', 2), ('NJ', 1), ('NF', 1), ('NP', 1), ('NM', 1), ('NK', 1), ('NT', 1), ('NE', 1), ('NZ', 1))
+DEFAULT_TYPES = (('NA', 3), ('_ple', 1), ('N__U_', 1), ('NR', 1), ('NB', 2), ('NC', 2), ('ND', 1), ('NN', 2), ('NJ', 1), ('NF', 1), ('NP', 1), ('NM', 1), ('NK', 1), ('NT', 1), ('NE', 1), ('NZ', 1))
 
 
 def leaf(name):
